@@ -320,3 +320,7 @@ func FireTicker(i int) bool { time.Sleep(10 * time.Millisecond); return false }
 func KVConflicts() int  { return 0 }
 func OnCrash(f func())  {}
 func NoCrash()          {}
+
+func GuardedBy(m interface{}, mu interface{}) {}
+func Unguard()                               {}
+func LocksHeld() int                         { return 0 }
